@@ -351,6 +351,11 @@ def make_func(ctx: Ctx, spec: dict, flavour: str):
         import linecache
 
         linecache.cache[filename] = (len(src), None, src.splitlines(True), filename)
+    partial_const = spec.get("partial")
+    if partial_const is not None and src.startswith("def ") and not spec.get("gen_style") and filename is None:
+        # the node function is a functools.partial over a base function: its state (the pre-bound first argument) is part of what
+        # it computes, while its code is the base function's
+        src = f"def {pyname}(_pk, {sig}){ret}:\n    return _impl(_fid, (" + "".join(f"{p}, " for p in params) + "('pk', _pk),))\n"
     ns = {"_impl": _impl, "_fid": fid}
     for p, v in defaults.items():
         ns[f"_d_{p}"] = v
@@ -361,6 +366,10 @@ def make_func(ctx: Ctx, spec: dict, flavour: str):
     else:
         exec(src, ns)
     fn = ns[pyname]
+    if partial_const is not None and src.startswith(f"def {pyname}(_pk, "):
+        import functools
+
+        fn = functools.partial(fn, partial_const)
     ctx.funcs[key] = fn
     return fn
 
